@@ -459,16 +459,16 @@ class Fn:
             # self.method(...) of the same class, statically resolved
             if isinstance(f.value, ast.Name) and f.value.id in ("self", "cls") and self.cls is not None:
                 q = f"{self.cls.name}.{f.attr}"
-                for info in self.known.values():
-                    if info.spec.qual == q:
-                        if info.spec.returns_self:
-                            raise Untranslatable("self-mutating method used as an expression")
-                        return self.call_known(info, e.args, e.keywords, recv=None if info.spec.drop_self else self.name("self"))
+                info = self.pick(q)
+                if info is not None:
+                    if info.spec.returns_self:
+                        raise Untranslatable("self-mutating method used as an expression")
+                    return self.call_known(info, e.args, e.keywords, recv=None if info.spec.drop_self else self.name("self"))
             # x.m(...) decided by the class of x at run time
             if f.attr in DISPATCH:
                 arms = []
                 for cls in DISPATCH[f.attr]:
-                    info = next((i for i in self.known.values() if i.spec.qual == f"{cls}.{f.attr}"), None)
+                    info = self.pick(f"{cls}.{f.attr}")
                     if info is None or not info.available:
                         raise Untranslatable(f"method {cls}.{f.attr} is not translated")
                     try:
@@ -495,8 +495,25 @@ class Fn:
             raise Untranslatable(f"method call .{f.attr}()")
         raise Untranslatable("call of a computed callee")
 
+    def pick(self, qual: str, pred=lambda i: True):
+        """the translation of the Python function `qual` a call from this function reaches: when several area plug-ins
+        translate the same function (under their own Lean names), the one of the caller's own area, else the first"""
+        cands = [i for i in self.known.values() if i.spec.qual == qual and pred(i)]
+        if not cands:
+            return None
+        mine = getattr(self.spec, "area", None)
+        for i in cands:
+            if getattr(i.spec, "area", None) == mine:
+                return i
+        return cands[0]
+
     def known_by_pyname(self) -> dict[str, "FnInfo"]:
-        return {i.spec.qual: i for i in self.known.values() if "." not in i.spec.qual}
+        out: dict[str, "FnInfo"] = {}
+        mine = getattr(self.spec, "area", None)
+        for i in self.known.values():
+            if "." not in i.spec.qual and (i.spec.qual not in out or getattr(i.spec, "area", None) == mine):
+                out[i.spec.qual] = i
+        return out
 
     def listcomp(self, e: ast.ListComp) -> str:
         raise Untranslatable("list comprehension outside the right-hand side of an assignment")
@@ -649,18 +666,18 @@ class Fn:
         # self.method(...) where the method's effect is on self
         if isinstance(f, ast.Attribute) and isinstance(f.value, ast.Name) and f.value.id == "self" and self.cls is not None:
             q = f"{self.cls.name}.{f.attr}"
-            for info in self.known.values():
-                if info.spec.qual == q and info.spec.returns_self:
-                    me = self.name("self")
-                    self.emit(ind, f"{me} := " + self.call_known(info, c.args, c.keywords, recv=me))
-                    return
+            info = self.pick(q, lambda i: i.spec.returns_self)
+            if info is not None:
+                me = self.name("self")
+                self.emit(ind, f"{me} := " + self.call_known(info, c.args, c.keywords, recv=me))
+                return
         # self.<field>.<method>(...) where the field holds an instance whose translated method mutates it
         if (isinstance(f, ast.Attribute) and isinstance(f.value, ast.Attribute) and isinstance(f.value.value, ast.Name)
                 and f.value.value.id == "self" and self.cls is not None and (self.cls.name, f.value.attr) in FIELD_CLASS):
             owner = FIELD_CLASS[(self.cls.name, f.value.attr)]
             me = self.name("self")
             fld = f.value.attr
-            info = next((i for i in self.known.values() if i.spec.qual == f"{owner}.{f.attr}" and i.spec.returns_self), None)
+            info = self.pick(f"{owner}.{f.attr}", lambda i: i.spec.returns_self)
             if info is not None:
                 self.mutates_self = True
                 new = self.call_known(info, c.args, c.keywords, recv=f"(← pyGetAttr {me} \"{fld}\")")
@@ -933,7 +950,10 @@ def load_plugins() -> list[str]:
         if fn.startswith("pytr_") and fn.endswith(".py"):
             try:
                 mod = importlib.import_module(fn[:-3])
+                n0 = len(SPECS)
                 mod.register(me)
+                for sp in SPECS[n0:]:
+                    sp.area = fn[:-3]
                 late.append((fn, mod))
             except Exception as e:  # noqa: BLE001
                 problems.append(f"translator plug-in {fn}: {type(e).__name__}: {e}")
@@ -942,7 +962,10 @@ def load_plugins() -> list[str]:
     for fn, mod in late:
         if hasattr(mod, "register_late"):
             try:
+                n0 = len(SPECS)
                 mod.register_late(me)
+                for sp in SPECS[n0:]:
+                    sp.area = fn[:-3]
             except Exception as e:  # noqa: BLE001
                 problems.append(f"translator plug-in {fn} (late): {type(e).__name__}: {e}")
     return problems
